@@ -77,6 +77,7 @@ def ambient(ctx, world, ev):
     from .c16 import Analyzer, session_class_set
     an = Analyzer(world, session_class_set(world, ev))
     an.ext_refs()
+    an.entropy_defaults()
     bad = [f for f in an.findings if f[0] == "W5" and ("random" in f[2] or "secrets" in f[2] or "time" in f[2] or "uuid" in f[2] or "urandom" in f[2])]
     for (rule, inst, detail, site) in bad:
         ctx.ob("N3", inst, False, detail, site)
